@@ -169,6 +169,21 @@ func (a *Analysis) ruleBuildVerdict() {
 		a.add("C08", "C08.accept", shape, "the registration set has no cycle, no lifetime conflict and no missing dependency, no constructor failed, yet Build returned: %v", firstLine(op.Err))
 		a.add("C06", "C06.verdict", shape, "valid registration set rejected by Build: %v", firstLine(op.Err))
 	}
+	if v.Missing && !v.Dup && op.Err == nil {
+		// "every non-optional dependency of every registration, whatever its lifetime, is itself
+		// registered" once Build succeeded - also of registrations nobody can ask for by type
+		// (initializer functions of any lifetime)
+		for _, r := range m.Cfg.Regs {
+			if !m.V.Accepted[r.ID] {
+				continue
+			}
+			for _, d := range r.Deps {
+				if t := m.Reg.target(d); t.Missing && !d.Optional {
+					a.add("C08", "C08.found", "missing-dep-accepted/"+formNames[r.Form]+"/"+lifeNames[r.Life], "Build succeeded although r%d (%s) requires %s, which nobody registers", r.ID, r, d)
+				}
+			}
+		}
+	}
 	// C06.order: each singleton constructed after the singletons it depends on
 	if op.Err == nil {
 		exit := map[int]int{}
